@@ -9,6 +9,7 @@ class Prop:
     vo_check = ["theories/Replay/Check.vo"]
     vo_props = ["theories/Props/C05.vo"]
     k_names = ["verdicts(replay.Filter.ValidateCounter/Reset == Replay.Model.step)",
+               "verdicts of a GOARCH=386 build of the replay package on the same histories == Replay.Model.step",
                "device(receive path: authenticated transport with counter c reaches the TUN iff Replay.Spec accepts c)"]
     rule = ("histories of ValidateCounter/Reset from one PRNG: forward jumps {1..2^32}, positions behind the greatest "
             "counter around every block (64) and window (8128) edge, duplicates, limit neighbourhood, Reset; "
@@ -21,8 +22,22 @@ class Prop:
     def __init__(self):
         self.dir = os.path.join(vlib.OUT, "C05")
 
+    def _aux386(self):
+        """cmd/c05w (the filter alone) built for GOARCH=386: the package's word-size assumptions."""
+        out = os.path.join(vlib.BIN, "c05w-386")
+        if not getattr(self, "_aux_built", False):
+            os.makedirs(vlib.BIN, exist_ok=True)
+            with vlib.Lock("go"):
+                rc, o = vlib.sh(["go", "build", "-tags", "verif", "-o", out, "./cmd/c05w"], cwd=vlib.HARNESS,
+                                env=dict(vlib.GOENV, GOARCH="386", CGO_ENABLED="0"), timeout=900)
+            if rc != 0:
+                raise CheckError("K.build.c05w-386", "replay package does not build for GOARCH=386:\n" + o)
+            self._aux_built = True
+        return out
+
     def _run_go(self, args):
         exe = vlib.build_go("c05")
+        args = args + ["-aux386", self._aux386()]
         rc, o = vlib.sh([exe] + args, cwd=vlib.ROOT, timeout=600)
         if rc != 0:
             raise CheckError("K.C05.driver", o)
@@ -61,7 +76,7 @@ class Prop:
         inp = os.path.join(d, "in.json")
         json.dump([{"ops": c["ops"], "gen": c.get("gen", "")} for c in cases], open(inp, "w"))
         exe = vlib.build_go("c05")
-        rc, o = vlib.sh([exe, "-replay", inp, "-out", d], cwd=vlib.ROOT, timeout=600)
+        rc, o = vlib.sh([exe, "-replay", inp, "-out", d, "-aux386", self._aux386()], cwd=vlib.ROOT, timeout=600)
         if rc != 0:
             raise CheckError("K.C05.driver", o)
         meta = json.load(open(os.path.join(d, "cases.json")))
@@ -87,7 +102,8 @@ class Prop:
             chunk //= 2
 
     def signature(self, case, f):
-        return "verdict-differs-from-spec" + ("-device" if case.get("gen") == "device" else "")
+        g = case.get("gen") or ""
+        return "verdict-differs-from-spec" + ("-device" if g == "device" else "-386" if g.endswith("-386") else "")
 
     def nontrivial(self, c):
         # at least two different verdicts and a counter repeated or out of order
